@@ -58,9 +58,9 @@ def main():
             "add_only": True,
         },
         "engines": [
-            {"name": "E-HW", "path": "engine/nir2smt.py", "kind_free_text": "Amaranth NIR netlist of the real code -> z3 transition system; contract obligations by 1-induction", "serves_properties": [c["property_id"] for c in checks if c["engine"] == "E-HW"]},
+            {"name": "E-HW", "path": "engine/nir2smt.py", "kind_free_text": "Amaranth NIR netlist of the real code -> z3 transition system; contract obligations by 1-induction", "serves_properties": [c["property_id"] for c in checks if "E-HW" in c["engine"]]},
             {"name": "E-PY", "path": "engine/pysym.py", "kind_free_text": "real Python function executed on symbolic proxies, one VC per path", "serves_properties": [c["property_id"] for c in checks if "E-PY" in c["engine"]]},
-            {"name": "E-RT", "path": "engine/rtc.py", "kind_free_text": "run-time contracts over exhaustively enumerated small inputs (bounded stand-in)", "serves_properties": [c["property_id"] for c in checks if "E-RT" in c["engine"]]},
+            {"name": "E-RT", "path": "engine/oblig.py", "kind_free_text": "run-time contracts on the real functions over exhaustively enumerated small inputs (Ctx.bounded_result; simulator stub in engine/simstub.py) — bounded stand-in, never counted as proved", "serves_properties": [c["property_id"] for c in checks if "E-RT" in c["engine"]]},
         ],
         "checks": checks,
         "not_applicable": na,
